@@ -58,6 +58,7 @@ class _Exec(Contract):
         self.args = sym_tuple(it, "args")
         self.kwargs = st.sym_ref("kwargs", "dict")
         self.outcome = None
+        self.mark = attr_write_mark(it)
         if self.is_method:
             self.recv = fresh_input_ref(it, "method_self")
             return method(it, info, self.obj, "__method_call__"), CallArgs([self.recv], star=self.args, starstar=self.kwargs)
@@ -90,12 +91,14 @@ class _Exec(Contract):
 
     def on_return(self, it, ret):
         st = it.st
+        wrapper_frame(it, self.obj, self.mark)
         st.check("P1:the-functions-result-is-returned-unchanged",
                  z3.BoolVal(self.outcome is not None and self.outcome[0] == "ret") if not (self.outcome and self.outcome[0] == "ret")
                  else ret == self.outcome[1])
 
     def on_raise(self, it, exc):
         st = it.st
+        wrapper_frame(it, self.obj, self.mark)
         st.check("P1:the-functions-exception-object-is-raised-unchanged",
                  z3.BoolVal(self.outcome is not None and self.outcome[0] == "exc") if not (self.outcome and self.outcome[0] == "exc")
                  else exc == self.outcome[1])
@@ -400,7 +403,10 @@ class _Mimic(Contract):
                 raise PyRaise(it.new_exc("AttributeError"), f"{name} is not modelled: treated as absent")
             if name == "__dict__":
                 which = "function" if obj.eq(self.fn) else "wrapper"
-                if it.st.fork(f"{which}.__dict__", [("present", True), ("absent", True)]) == 1:
+                g = it.st.ghost
+                if f"$has_dict:{which}" not in g:       # whether an object has a __dict__ does not change while mimic runs
+                    g[f"$has_dict:{which}"] = it.st.fork(f"{which}.__dict__", [("present", True), ("absent", True)]) == 0
+                if not g[f"$has_dict:{which}"]:
                     raise PyRaise(it.new_exc("AttributeError"), "object without __dict__")
                 return self.fdict if obj.eq(self.fn) else self.tdict
             return self.attr_sym(it, obj, it.mk_str(name), node)
@@ -436,6 +442,12 @@ class _Mimic(Contract):
         st.assume(p["lo"] <= p["hi"])
         return p
 
+    def str_keys(self, it, d, tag):
+        """attribute names are strings (an instance __dict__ filled through setattr / attribute assignment)"""
+        p = dict_parts(it, d)
+        it.st.assume(QFact(lambda i: z3.Implies(z3.And(p["lo"] <= i, i < p["hi"]), V.is_str(z3.Select(p["keys"], i))),
+                           pattern=lambda i: z3.Select(p["keys"], i), name=tag))
+
     def base(self, it):
         st = it.st
         self.fn = st.fresh_val("function")
@@ -452,6 +464,7 @@ class _Mimic(Contract):
                         sort=Val, pattern=lambda k: z3.Select(f0["has"], k), name="fattr"))
         for n in ("__name__", "__doc__", "__wrapped__"):
             st.instantiate_at(it.mk_str(n))
+        st.hints += [self.t0["lo"] == 0, self.t0["hi"] <= 2, f0["lo"] == 0, f0["hi"] <= 2]
         for n in ("__name__", "__doc__", "__wrapped__"):
             st.assume(z3.Not(self.readonly(self.target, it.mk_str(n))))
         for n in ("__name__", "__doc__"):
@@ -469,7 +482,7 @@ class _Mimic(Contract):
         st = it.st
         src = it.eval(node.iter, env)
         if lib.concrete_items(it, src) is None:
-            return None                      # the __dict__ copy loop: summarised by the engine (dict merge), no invariant
+            return self.dict_loop_spec(it)   # the __dict__ copy loop, whatever shape its body takes
         arr, lo, hi = lib.seq_view(it, src)
         self.names = (arr, lo, len(lib.concrete_items(it, src)))
 
@@ -492,11 +505,36 @@ class _Mimic(Contract):
             pass
         return dict(name="attributes-loop", inv=inv, havoc_containers=True, exit=on_exit, force=True)
 
+    def dict_loop_spec(self, it):
+        """The loop that copies the wrapped callable's own attributes: whatever the wrapper holds when the loop starts
+        (its own state and the metadata just copied) is still there, with the same value, after every iteration."""
+        t1 = dict_parts(it, self.tdict)
+        f0 = self.f0
+        outer = self
+
+        def inv(it2, env2, k):
+            key = z3.Const("key!md", Val)
+            p, pf = dict_parts(it2, self.tdict), dict_parts(it2, self.fdict)
+            return [("attributes-the-wrapper-already-had-are-not-overwritten(a-wrapper-object-keeps-its-own-state)",
+                     QFact(lambda key: z3.Implies(z3.Select(t1["has"], key),
+                                                  z3.And(z3.Select(p["has"], key), z3.Select(p["val"], key) == z3.Select(t1["val"], key))),
+                           sort=Val, name="md")),
+                    ("the-wrapped-callable-is-not-modified(frame)",
+                     z3.And(pf["has"] == f0["has"], pf["val"] == f0["val"]))]
+        def havoc_done(it2):
+            outer.str_keys(it2, outer.fdict, "fk")
+            for d in (outer.tdict, outer.fdict):          # counter-models are looked for among small dicts first
+                q = dict_parts(it2, d)
+                it2.st.hints += [q["lo"] == 0, q["hi"] <= 2]
+        return dict(name="own-attributes-loop", inv=inv, havoc_containers=True, havoc_ghost=(havoc_done,))
+
     def on_return(self, it, ret):
         st = it.st
         st.check("P4:the-wrapper-itself-is-returned", ret == self.target)
         p, t0 = dict_parts(it, self.tdict), self.t0
         names = getattr(self, "names", None)
+        for n in ("__name__", "__doc__", "__wrapped__"):
+            st.instantiate_at(it.mk_str(n))
         for n in ("__name__", "__doc__"):
             nm = it.mk_str(n)
             listed = z3.BoolVal(False) if names is None else z3.Or([z3.Select(names[0], names[1] + i) == nm for i in range(names[2])])
